@@ -34,6 +34,8 @@ def gen_cases(ctx, cfg, name):
         if k not in seen:
             seen.add(k)
             cases.append(c)
+    if len(cases) != r.distinct:      # every initial state of Gen_Sem is one case: nothing may be lost in parsing
+        raise vlib.Infra("case generation %s: TLC has %d cases, %d parsed from its output" % (cfg, r.distinct, len(cases)))
     cases.sort(key=lambda c: json.dumps(c, sort_keys=True))
     return cases
 
@@ -63,8 +65,13 @@ def judge(ctx, rfile, name, timeout=1800):
     if mon.depth != len(rows) + 1:
         raise vlib.Infra("monitor did not consume all results (%d of %d)" % (mon.depth - 1, len(rows)))
     bad = {}
-    for m in re.finditer(r'<<"VERDICT", (\d+), (-?\d+), "([^"]+)">>', mon.out):
-        bad[int(m.group(1))] = m.group(3)
+    tups = vlib.tuples(mon.out, "VERDICT")        # robust against TLC wrapping long tuples
+    if len(tups) != mon.out.count('"VERDICT"'):
+        raise vlib.Infra("monitor output: %d VERDICT tuples parsed, %d printed" % (len(tups), mon.out.count('"VERDICT"')))
+    for t in tups:
+        if len(t) != 3 or not isinstance(t[0], int) or not isinstance(t[2], str):
+            raise vlib.Infra("unparsable VERDICT tuple %r" % (t,))
+        bad[t[0]] = t[2]
     return rows, bad
 
 
@@ -196,7 +203,8 @@ def run(ctx, pid):
 
     # ---- lane A: design-level model checking (runs while lane B generates, builds and executes)
     boxA = {}
-    ta = lane(lambda: (design_sem(ctx), design_demand(ctx) if linear else 0), boxA)
+    skip_design = os.environ.get("VERIF_STREAMS_SKIP_DESIGN") == "1"      # developer aid for mutant runs; never set by tools/check
+    ta = lane(lambda: None if skip_design else (design_sem(ctx), design_demand(ctx) if linear else 0), boxA)
     time.sleep(0.3)
 
     # ---- lane C: build the driver meanwhile
